@@ -55,11 +55,11 @@ SIG_CYCLE = ("TERM", "KILL", "INT", "TERM", "HUP", "ABRT", "TERM", "SEGV")   # S
 ODD_MESSAGE = 'verif: "odd" \\ message\n--READY--\nwith the delimiter, a tab\t and {"error": null}'
 RAISE_MESSAGES = {"msg": "verif: injected optimizer failure", "empty": "", "assert": "", "zero": "0", "odd": ODD_MESSAGE}
 RAISE_KINDS = ("empty", "msg", "assert", "zero", "odd")
-# FINDING (reported to the lead, not yet in known_findings.json): a message larger than the pipe capacity (64 KiB: the
-# config of ~1700+ variables, a gradient answer of ~3300 floats) is written only partly by the non-blocking os.write in
-# _JSONPipeCommunicator.write, whose result is ignored -> the external run hangs for ever with a live child.  The
-# stream that exercises it stays disabled until the lead decides.
-BIG_MESSAGES = False
+# F20e (fixed in /repo by 6863677): a message larger than the pipe capacity (64 KiB: the config of ~1700+ variables, a
+# gradient answer of ~3300 floats) was written only partly by the non-blocking os.write in _JSONPipeCommunicator.write,
+# whose result was ignored -> the external run hung for ever with a live child.  The stream below (one corpus input on
+# every run, one more generated configuration in the thorough tier) makes a revert show up as `never-hangs`.
+BIG_MESSAGES = True
 INPROC_DEADLINE_S = 60
 
 
@@ -1152,7 +1152,7 @@ def long_base(rng, method: str = "slsqp") -> dict:
 def big_base(rng) -> dict:
     """A configuration whose config message (and gradient answers) exceed the pipe capacity of 64 KiB."""
     case = rand_base(rng, "l-bfgs-b", "plain")
-    nvar = 3000
+    nvar = 1800        # config message of about 69 KB
     case.update({"init": [_dy(rng, -4, 4) for _ in range(nvar)], "centers": [[0.5] * nvar for _ in case["obj_weights"]],
                  "pert": 1, "max_functions": 2, "big": True})
     for key in ("lower", "upper", "mask", "start", "options"):
@@ -1180,8 +1180,8 @@ def gen_cases(tier, rng):
         if c["method"] != "nelder-mead":
             c["max_functions"] = min(int(c.get("max_functions") or 3), 3)
         yield c
-    if BIG_MESSAGES:
-        yield big_base(rng)
+    if BIG_MESSAGES and not quick:
+        yield big_base(rng)           # (quick: corpus/C20/f20e_big_config.json)
     # (b) crash points on plain and on faulty runs: the child dies by a signal (SIGTERM, SIGKILL, SIGINT, SIGHUP,
     #     os.abort(), SIGSEGV) when it is about to write message k, right after the answer to message k, or while it
     #     waits for the answer to message k; it exits with a code; the optimizer's j-th callback raises in the child
@@ -1270,7 +1270,8 @@ RULE = ("every case = one in-process run and one run through external/<method> (
         "PATH wrapper) of the same seeded configuration, in a forked process group of its own (hard kill after 330 s = hang): "
         "methods slsqp / l-bfgs-b / nelder-mead / differential_evolution(seed, also parallel), named <m> or scipy/<m>, with "
         "1-2 objectives, 1-3 realizations, nonlinear and linear constraints, two- and one-sided bounds, variable masks, explicit "
-        "start vectors, speculative / split evaluations, max_functions / maxiter, optimizer.output_dir / stdout / stderr paths, "
+        "start vectors, speculative / split evaluations, max_functions / maxiter, optimizer.output_dir / stdout / stderr paths, a "
+        "configuration of 1800 variables (messages above the pipe capacity), "
         "NaN failures (tolerated, too-few, allowed for DE), user abort before or after evaluation j with exit code 4/0/1/3, the "
         "user's evaluator raising an Exception or a BaseException at call j, an optimizer option that makes the optimizer itself "
         "fail; pipe schedules (requests not readable / answers not writable when first tried, parent and child side); faults: "
@@ -1290,9 +1291,9 @@ ASSUMPTIONS = [
     "the user's evaluator is deterministic in (call index, request); its observed behaviour in the in-process run is the model's evaluator",
     "JSON text round trip of finite floats, NaN and infinities is exact up to NaN payload (repr floats; checked on every message by comparing "
     "both ends of the pipe bit by bit) and the validated config survives dump -> JSON -> validate -> dump (checked on every case)",
-    "every message is smaller than the pipe capacity (64 KiB), so that a FIFO delivers it whole: the generated configurations have 2-3 "
-    "variables.  This assumption is FALSE for large problems on the current tree (finding F20b reported to the lead: a config message "
-    "of ~3000 variables is written only partly and the external run hangs); the stream that shows it (BIG_MESSAGES) is disabled",
+    "a FIFO delivers every message whole: true for messages below the pipe capacity (64 KiB) by the OS, and above it by the write / read "
+    "loops of _JSONPipeCommunicator (F20e, fixed by 6863677); exercised on every run by a configuration of 1800 variables (config "
+    "message of 72 KB), not modelled",
     "a signal the child survives (ignored or handled without exiting) is not a death: such a case is judged as a run without fault; "
     "a handler that makes the child exit -- with whatever status -- is a death",
     "'the evaluator raises' covers Exception and BaseException subclasses raised by the evaluator function (KeyboardInterrupt delivered "
@@ -1327,9 +1328,9 @@ MANIFEST = {
                    "outcome, trace, wire messages and child liveness under signal / exit / raise faults at every crash point of every kind."),
     "level_note": ("PARTIAL with respect to OS behaviour: signal delivery, FIFO buffering, scheduling and real time-outs cannot be exhibited by the "
                    "Gallina model (`terminate` assumes SIGTERM + wait ends a running child, `poll` reports a dead child, FIFOs deliver what was "
-                   "written -- whole messages, i.e. messages below the 64 KiB pipe capacity; a write into a FIFO without reader fails at once); "
+                   "written -- whole messages; a write into a FIFO without reader fails at once); "
                    "these are exercised only by the real-process correspondence (wall time < _PROCESS_TIMEOUT + 90 s, child pid dead, FIFO "
-                   "directory empty).  Open finding F20b (reported, stream disabled): messages above the pipe capacity hang the external run.  "
+                   "directory empty; messages above the pipe capacity: F20e, fixed, one 72 KB config message on every run).  "
                    "Trusted: Coq kernel + VM; the PATH wrapper and the recording monkey-patches; SciPy and the evaluator as black boxes "
                    "replayed from the in-process run; the translator copying _PROCESS_TIMEOUT and OptimizerExitCode.  All theorems print "
                    "'Closed under the global context'."),
